@@ -302,7 +302,7 @@ func TestProp(t *testing.T) {
 	run := rt.Begin(t, "C01")
 	defer run.Finish()
 	rule := "histories of 1..4 steps on one VM (Run | Parse+RunAfterParsed once or twice | Parse only | RunExpr), every observer (Ret printing/repr/JSON, GetDetailText twice, GetAsmText, Matched/RestInput, GetErrorText, IsCalculateExists, Attrs.ToJSON) after every step; sources: hostile-typing templates (any value as any operand of every operator/dice modifier/method/built-in, extreme counts, nesting 1..400 around the capacities), generated program + broken tail, hostile-typed generated programs, byte mutations, raw bytes; all family flags x DisableStmts/NDice/Bitwise x IgnoreDiv0 x random/min/max x DefaultDiceSideExpr x OpCountLimit {200,30000} x ParseExprLimit {0,2000,1e7}. Oracle: no panic escapes, dispatches+rolls stay under 200*budget+2e5, a call yields a value or an error. Non-trivial = some step parsed successfully and (a later step ran on the state it left, or a step ended in a run-time error); distinct by configuration+sources"
-	run.Check("history", 40000, 800000, rule, func(t *rapid.T, s *rt.Section) {
+	run.Check("history", 40000, 300000, rule, func(t *rapid.T, s *rt.Section) {
 		c := Case{Cfg: drawCfg(t)}
 		n := rapid.IntRange(1, 4).Draw(t, "nsteps")
 		env := &gen.Env{}
